@@ -361,7 +361,7 @@ where
     }
     let lean = ctx.mode != "native" && ctx.mode != "native-dev";
     let mut rng = ctx.rng(&format!("inplace{}", name), 0);
-    let nprog = if ctx.is_miri() { ctx.n(2, 5) } else if lean { ctx.n(40, 2000) } else { ctx.n(400, 8000) };
+    let nprog = if ctx.is_miri() { ctx.n(2, 24) } else if lean { ctx.n(40, 2000) } else { ctx.n(400, 8000) };
     m.count("chains");
     for k in 0..nprog {
         let mut len = if ctx.is_miri() { [0usize, 1, 3, 2, 5][(k % 5) as usize] } else { (k % 10) as usize };
